@@ -6,6 +6,30 @@ LIBS = {
 }
 
 PROPS = {
+    "C01": {
+        "groups": [{"name": "render", "quick": 2500, "thorough": 60000}, {"name": "C01misc", "quick": 2000, "thorough": 60000},
+                   {"name": "C14", "quick": 1500, "thorough": 40000}],
+        "rule": "documents from grammars of HTML (inline styles, links, media, blockquotes, lists, headings, pre, hr, unknown tags, character-reference and raw control-character injections), Markdown, gemtext and plain text with URLs x sequences of 1..4 widths (-3..250); "
+                "error text quoting hostile status lines / media types / raw control characters through style.Problem; Scrub and SetLength on raw text with C0, DEL, C1, ESC, tabs; style expressions followed by layout pipelines; "
+                "the Safe predicate (printable, newline, complete SGR sequences only) is evaluated on every implementation output; non-trivial = the input contains a control character / a link / several widths; distinct by op content",
+        "trusted": ["x/net/html and goldmark: the model renders the forest the real parser produced; the tokenizer never decodes character references inside element names (hypothesis tagsClean of the theorems)",
+                    "URL.Host of a successfully dialled host contains no control characters (Actor.Name prints it)", LIBS["regexp"], LIBS["unicode"]],
+        "assumptions": ["items (Post/Actor/Activity/Failure String, Preview, Name) and UI frames are covered at model level through the Clean closure theorems and differentially in C06/C07"],
+    },
+    "C12": {
+        "groups": [{"name": "render", "quick": 3000, "thorough": 80000}],
+        "rule": "documents from grammars of HTML (inline styles, links, media, blockquotes, lists, headings, pre, hr, unknown tags, character-reference and raw control-character injections), Markdown, gemtext and plain text with URLs x sequences of 1..4 widths (-3..250); "
+                "every link / image / frame gets a unique label text and target from the generator; predicates on the implementation's output: the superscript number printed after a label opens (links[k-1]) that label's own target, and the numbers 1..N are all shown; non-trivial = the document has links; distinct by op content",
+        "trusted": ["x/net/html and goldmark (forest shipped with the op)", LIBS["regexp"]],
+        "assumptions": ["adjacent numbers without any text between them (two empty anchors in a row) are visually ambiguous; the property is stated on the numbers as emitted (ghost labels), see DESIGN.md"],
+    },
+    "C14": {
+        "groups": [{"name": "C14", "quick": 4000, "thorough": 100000}, {"name": "render", "quick": 1500, "thorough": 40000}],
+        "rule": "style expressions (nesting and concatenation of the eight style functions over texts with newlines, blanks, tabs, wide characters) optionally followed by 0..3 layout steps (wrap, dumbwrap, pad, indent, snip, quote, header, bullet, link, linkblock); a terminal state machine is run on the implementation's output: per-character attributes must equal the enclosing style functions, and no attribute may be active at a line break or at the end; plus the render group; "
+                "non-trivial = some character is styled; distinct by op content",
+        "trusted": ["the terminal model: ESC[0m / ESC[m clear, any other SGR parameter string is added", LIBS["regexp"]],
+        "assumptions": ["input text is ESC-free (it went through Scrub, C01)"],
+    },
     "C03": {
         "groups": [{"name": "C03", "quick": 1600, "thorough": 40000, "workers": 8}],
         "rule": "status / Content-Type / Location lines and header blocks from a grammar with mutations (case, blanks, CR, missing newline, odd versions and codes); worlds of 1..4 documents and 0..25 redirects over five loopback TLS hosts (relative and cross-host Locations, non-https hops, missing/unparsable Location, self loops and cycles, chains around the budget of 20, odd status lines, content types, bodies) x sequences of 1..8 fetches (cache warm-up); "
@@ -115,6 +139,24 @@ PROPS = {
 # Texts for MANIFEST.json (checks/gen_manifest.py)
 
 MANIFEST_TEXT = {
+    "C01": {
+        "text": "Lean theorems: Scrub leaves no control character but newline; clean styled text (printable characters, newlines, well-formed SGR around single characters) is terminal-safe and is closed under the whole style layer, every layout function and the HTML/Markdown, gemtext and plain-text renderers for every forest (arbitrary strings in text nodes and attributes), source and width; error text through style.Problem and the status line through SetLength are safe for every message; accepted configurations have well-formed colours. Tied to the code by differential correspondence on the renderers, style.Problem, Scrub, SetLength; the Safe predicate is evaluated on every implementation output.",
+        "design_ref": "DESIGN.md §5 C01",
+        "note": "Trusted: Lean kernel; correspondence check (testing); x/net/html, goldmark; element names are control-free; URL.Host of dialled hosts.",
+        "technique": "Lean 4 proof (Clean invariant, mutual induction over the renderer) + differential correspondence with a safety predicate on every output",
+    },
+    "C12": {
+        "text": "Lean theorems: in every renderer each numbered element prints the index of its own target (ghost labels = 1..N in order, nesting included), the link list is independent of the width, and SelectLink(k) returns body link k, then attachment k-|links|, and nothing for any other integer; the numbers supplement prints select the right attachment. Tied to the code by differential correspondence on the renderers with generator-assigned labels and targets; label->target and 1..N predicates are evaluated on every implementation output.",
+        "design_ref": "DESIGN.md §5 C12",
+        "note": "Trusted: Lean kernel; correspondence check (testing); parsers; adjacency of numbers is not part of the statement.",
+        "technique": "Lean 4 proof (ghost-label invariant by mutual induction over the renderer) + differential correspondence with a label oracle",
+    },
+    "C14": {
+        "text": "Lean theorems: the terminal displays each cell of rendered clean text with exactly its attributes and is neutral after every cell; for every nesting/concatenation of the style functions over ESC-free text the result is the rendering of cells whose attributes are exactly the enclosing functions; clean text stays clean (hence neutral at every line break and at the end) under wrap, dumbwrap, pad, indent, snip, centring, last-line replacement and the renderers, and can be cut at line boundaries. Tied to style.go/ansi.go by differential correspondence on style expressions and layout pipelines, running the terminal state machine on the implementation's output.",
+        "design_ref": "DESIGN.md §5 C14",
+        "note": "Trusted: Lean kernel; correspondence check (testing); the terminal model of SGR.",
+        "technique": "Lean 4 proof (cell-level refinement of the ANSI layer) + differential correspondence with a terminal state machine",
+    },
     "C03": {
         "text": "Lean theorems for all response byte strings, worlds, budgets and caches: an exchange yields a document iff the status is 200-203, at least one Content-Type line is present, every Content-Type line names a tolerated type, the header block is terminated; a fetch succeeds only along a chain of https hops within the budget whose last response is such a document, source = URL of that response, at most budget+1 requests; every sound cache (any eviction) is transparent: same result as with an empty cache. Tied to jtp.go by differential correspondence on the recognisers and on jtp.Get against a loopback TLS simulator, request log included.",
         "design_ref": "DESIGN.md §5 C03",
